@@ -465,27 +465,33 @@ func genReal(r *lib.Rand, tier string, emit func(string)) {
 	type job struct {
 		data []byte
 		lt   gopacket.LayerType
+		tail []byte // bytes cut off by a truncation: placed in the spare capacity behind the input
 	}
 	var jobs []job
 	for _, c := range craftedPackets() {
-		jobs = append(jobs, job{c.data, c.lt})
+		jobs = append(jobs, job{c.data, c.lt, nil})
 	}
 	for _, f := range fixtures {
-		jobs = append(jobs, job{f, layers.LayerTypeEthernet})
+		jobs = append(jobs, job{f, layers.LayerTypeEthernet, nil})
 		n := 1
 		if tier == "thorough" {
 			n = 4
 		}
 		for i := 0; i < n; i++ {
-			jobs = append(jobs, job{f, firstTypes[r.Intn(len(firstTypes))]})
+			jobs = append(jobs, job{f, firstTypes[r.Intn(len(firstTypes))], nil})
 		}
 		// truncations and a mutated byte: mostly-valid malformed inputs
 		if len(f) > 20 {
 			cut := 14 + r.Intn(len(f)-14)
-			jobs = append(jobs, job{append([]byte(nil), f[:cut]...), layers.LayerTypeEthernet})
+			jobs = append(jobs, job{append([]byte(nil), f[:cut]...), layers.LayerTypeEthernet, append([]byte(nil), f[cut:]...)})
+			// a second cut inside the last 40 bytes: a header of the innermost layers that claims more than is there
+			if len(f) > 60 {
+				cut2 := len(f) - 1 - r.Intn(40)
+				jobs = append(jobs, job{append([]byte(nil), f[:cut2]...), layers.LayerTypeEthernet, append([]byte(nil), f[cut2:]...)})
+			}
 			m := append([]byte(nil), f...)
 			m[r.Intn(len(m))] ^= byte(1 << uint(r.Intn(8)))
-			jobs = append(jobs, job{m, layers.LayerTypeEthernet})
+			jobs = append(jobs, job{m, layers.LayerTypeEthernet, nil})
 		}
 	}
 	for _, j := range jobs {
@@ -498,7 +504,15 @@ func genReal(r *lib.Rand, tier string, emit func(string)) {
 		for _, l := range tr.tableLines() {
 			emit(l)
 		}
-		emit("pkt buf 0 " + lib.Hex(j.data))
+		if len(j.tail) > 0 {
+			t := j.tail
+			if len(t) > 64 {
+				t = t[:64]
+			}
+			emit("pkt buf 0 " + lib.Hex(j.data) + " " + lib.Hex(t))
+		} else {
+			emit("pkt buf 0 " + lib.Hex(j.data))
+		}
 		// types present, for Layer(t)/LayerClass(c) arguments
 		var tys []int
 		for _, l := range p.Layers() {
@@ -514,6 +528,11 @@ func genReal(r *lib.Rand, tier string, emit func(string)) {
 		emit(fmt.Sprintf("pkt rnew 0 %d %d 0", dsadBit, int(j.lt)))
 		emit(fmt.Sprintf("pkt rnew 1 %d %d 0", dsadBit|optLazy, int(j.lt)))
 		emit(fmt.Sprintf("pkt rnewx %d %d 0", dsadBit|[]int{optNoCopy, optPool, optPool | optLazy, optNoCopy | optLazy}[r.Intn(4)], int(j.lt)))
+		if len(j.tail) > 0 { // truncated input with its real continuation behind it: every aliasing option set
+			for _, o := range []int{optNoCopy, optNoCopy | optLazy, optPool, optPool | optLazy} {
+				emit(fmt.Sprintf("pkt rnewx %d %d 0", dsadBit|o, int(j.lt)))
+			}
+		}
 		nacc := 2 + r.Intn(5)
 		for i := 0; i < nacc; i++ {
 			var a string
